@@ -198,17 +198,20 @@ def conv_entries(kind, x):
         out.append({"dec": dec, "key": js, "tok": tok})
         return tok
 
-    if x is None:
-        add("")        # set(None) succeeds with u ''; the re-set converts ''
-        return out
-    if isinstance(x, (datetime.date, datetime.time, Other)):
+    add("")            # the empty text is always recorded: it must not convert (hypothesis OpaqueStable)
+    if x is None or isinstance(x, (datetime.date, datetime.time, Other)):
         return out
     key = x.strip() if isinstance(x, str) else x
-    tok = add(key)
-    if tok is not None:
+    todo = [add(key)]
+    # close the table under "text of a recorded result": '%f' text (or str() when the format raises),
+    # plus the str() text that a failed first set() would leave in .u
+    while todo:
+        tok = todo.pop()
+        if tok is None:
+            continue
         for text in (tok["fmt"], tok["str"]):
-            if text is not None:
-                add(text.strip())
+            if text is not None and repr(py_to_nat(text.strip())) not in seen:
+                todo.append(add(text.strip()))
     return out
 
 
